@@ -41,5 +41,6 @@ def variants(repo):
         V("cause compares with nan", p, in_function("_update_contingency_results", replace_once("(val > np.nan_to_num(running_max, nan=-np.inf))", "(val > running_max)")), "cause-nan-safe"),
         V("cause includes own outage", p, in_function("_update_contingency_results", replace_once('max_mask = net[element]["in_service"].values & ~np.isnan(val) & \\\n', 'max_mask = \\\n')), "cause-valid-only"),
         V("mask ignores in_service", p, in_function("_update_contingency_results", replace_once('where=net[element]["in_service"].values & ~np.isnan(val))', 'where=~np.isnan(val))')), "where-own-outage"),
+        V("limit column tested on the outaged table", p, in_function("_update_contingency_results", replace_once("if 'max_loading_percent_nminus1' in net[element].columns", "if 'max_loading_percent_nminus1' in net[cause_element].columns")), "guard:max_loading_percent_nminus1"),
         V("mask ignores nan", p, in_function("_update_contingency_results", replace_once('where=net[element]["in_service"].values & ~np.isnan(val))', 'where=net[element]["in_service"].values)')), "where-nan"),
     ]
